@@ -27,7 +27,7 @@ def handle_num(h) -> int:
 
 
 class Obj:
-    def __init__(self, cls, label, key=None, key_type=None, cka_id=None, pub_attrs=True, ec_wrapped=True, extra=None):
+    def __init__(self, cls, label, key=None, key_type=None, cka_id=None, pub_attrs=True, ec_wrapped=True, extra=None, attr_pad=0):
         self.cls = cls                  # LL.CKO_PUBLIC_KEY / CKO_PRIVATE_KEY / CKO_SECRET_KEY
         self.label = label
         self.key = key                  # cryptography private key (pair shares it) or None
@@ -39,6 +39,7 @@ class Obj:
             key_type = LL.CKK_RSA if isinstance(key, rsa.RSAPrivateKey) else LL.CKK_EC if key is not None else LL.CKK_AES
         self.key_type = key_type
         self.extra = extra or {}
+        self.attr_pad = attr_pad        # leading zero octets some tokens put in front of CKA_PUBLIC_EXPONENT (e.g. 00 01 00 01)
 
     def attr(self, a):
         if a in self.extra:
@@ -57,7 +58,8 @@ class Obj:
                 return None
             nums = self.key.public_key().public_numbers()
             v = nums.n if a == LL.CKA_MODULUS else nums.e
-            return tuple(v.to_bytes((v.bit_length() + 7) // 8, "big"))
+            pad = self.attr_pad if a == LL.CKA_PUBLIC_EXPONENT else 0        # only the exponent: the code under test takes the modulus octets as they are
+            return tuple(b"\0" * pad + v.to_bytes((v.bit_length() + 7) // 8, "big"))
         if a == LL.CKA_EC_POINT:
             if not exposed or not isinstance(self.key, ec.EllipticCurvePrivateKey):
                 return ()
